@@ -3,6 +3,7 @@ import TantivyModel.Proofs.Store.Cache
 import TantivyModel.Proofs.Store.SkipIndex
 import TantivyModel.Proofs.Store.Writer
 import TantivyModel.Proofs.Store.Merge
+import TantivyModel.Proofs.Store.Channel
 /-!
 # C09 — Stored documents are returned exactly as they were added
 
@@ -153,6 +154,18 @@ theorem C09_store_get_doc (C : Compression) (hC : GoodCompression C) (bs : Nat) 
     obtain ⟨a, ha, rfl⟩ := List.mem_map.mp hd
     exact ⟨C09_serialized_doc_nonempty isStored a, hfit a ha⟩
 
+/-! ### dedicated compressor thread -/
+
+/-- `docstore_compress_dedicated_thread = true`: for every interleaving of the producer's sends and
+the compressor thread's receives through the bounded FIFO channel (any capacity), once everything
+was sent and received the compressor's state is what the same calls give when executed directly
+in program order (`docstore_compress_dedicated_thread = false`). -/
+theorem C09_dedicated_thread_same_result {σ μ : Type} (step : σ → μ → σ) (cap : Nat)
+    (schedule : List ChanEvent) (msgs : List μ) (s s' : σ)
+    (h : runChan step cap schedule msgs [] s = some ([], [], s')) : s' = msgs.foldl step s := by
+  have := runChan_fold step cap schedule msgs [] s [] [] s' h
+  simpa using this
+
 /-! ### block cache -/
 
 /-- for every access sequence and every capacity (0 included), reading through the LRU block cache
@@ -225,6 +238,28 @@ theorem C09_merge_store (C : Compression) (hC : GoodCompression C) (K P minBlock
   have hh : Holds C P merged live := ⟨groups, _, hd, hl, hg, rfl⟩
   exact ⟨hh, fun hne i => holds_get C hC.roundtrip P hP merged live hne hh i⟩
 
+/-- The third path of `write_storable_fields` (non-trivial doc-id mapping, i.e. a sorted index):
+taking, for each entry of the mapping, the next live document of the named segment writes a store
+that holds exactly the picked documents in mapping (= new doc id) order. `its` are the segments'
+live documents (what `iter_raw(alive_bitset)` yields, see `C09_iter_live_in_order`). -/
+theorem C09_merge_mapped (C : Compression) (hC : GoodCompression C) (K P bs : Nat) (hK : 1 ≤ K) (hP : 2 ≤ P)
+    (hbs : bs < 4294967296) (its : List (List Bytes)) (order : List Nat) (picked : List Bytes)
+    (hp : pickDocs its order = some picked)
+    (hall : ∀ l ∈ its, ∀ d ∈ l, d ≠ [] ∧ bs + d.length < 4294967296) :
+    ∃ w, mergeMapped C K (Writer.new bs) (its.map (List.map some)) order = some w ∧
+      let merged : StoreFile :=
+        { data := (w.sendBlock C).written, index := finishedLayers P (w.sendBlock C).checkpoints,
+          decompId := C.id, version := Gen.DOC_STORE_VERSION }
+      Holds C P merged picked ∧ (picked ≠ [] → ∀ i, getBytes C merged i = picked[i]?) := by
+  obtain ⟨w, e, hw, hb⟩ := mergeMapped_spec C K hK bs order its picked (Writer.new bs) [] hp (winv_new C K bs)
+    rfl hall
+  simp only [List.nil_append] at hw
+  obtain ⟨groups, hd, hl, hg, _⟩ := winv_flush C K hK w picked (by rw [hb]; exact hbs) hw
+  refine ⟨w, e, ?_⟩
+  intro merged
+  have hh : Holds C P merged picked := ⟨groups, _, hd, hl, hg, rfl⟩
+  exact ⟨hh, fun hne i => holds_get C hC.roundtrip P hP merged picked hne hh i⟩
+
 /-- stacking is only correct under its guard: stacking a source in which document 0 is deleted
 keeps that document (the per-document path would drop it) -/
 theorem C09_stack_with_deletes_counterexample :
@@ -285,5 +320,12 @@ example : SegOK Compression.none 8 100
     sameCodec := fun _ => rfl }
 
 example : liveDocs (fun i => i == 0) 0 [[1], [2]] = [[1]] := by decide
+
+/-- a schedule through a channel of capacity 3 that delivers three messages -/
+example : runChan (fun (s : List Nat) (m : Nat) => s ++ [m]) 3
+    [.send, .send, .recv, .send, .recv, .recv] [1, 2, 3] [] [] = some ([], [], [1, 2, 3]) := by decide
+
+/-- a mapping interleaving two segments -/
+example : pickDocs [[[1], [2]], [[3]]] [1, 0, 0] = some [[3], [1], [2]] := by decide
 
 end TantivyModel.C09
